@@ -17,16 +17,28 @@ THE FULL STATEMENTS (what the property says):
   theorem C11_add_total (hd : Spec.distinctB (roots svcs) = true) :
       ∃ st, run k (svcs.map .add) = .ok st
 
-Both are FALSE for the code as it is:
-* `C11_serve` fails when a `Handle` precedes a `Remove` (finding F10b, `C11_F10b_witness`): `Remove`
-  builds a new ServeMux and re-registers the WebServices only.  `C11_serve_partial` is the statement
-  under the hypothesis the proof forces, `Spec.F10b ops = false`.
-* `C11_add_total` fails when two services register the same ServeMux pattern although their root
-  paths differ (finding F11, `C11_F11_witness`).  `C11_add_total_partial` has the hypothesis
-  `Spec.F11 (roots svcs) = false`.
+* `C11_add_total` is PROVED as stated since the repair 093fa53 (`addHandler` collects the ServeMux
+  patterns of the WebServices registered before and adds only the missing ones): services with
+  pairwise different root paths can be added in any number and order, whatever prefixes they share.
+  It was `C11_add_total_partial` before, with the hypothesis `Spec.F11 (roots svcs) = false` (no two
+  services want the same ServeMux pattern — finding F11: `/users` + `/users/{id}/b`, `/a` + `/a/`);
+  `C11_F11_fixed` is the former witness, on which the property now holds (the harness replays it as
+  a regression).  `Spec.F11` is still defined, as a class whose coverage the check measures; no
+  theorem assumes it.
+  What can still make a registration fail is stated exactly (`C11_add_panics_only`,
+  `C11_add_after_history`, `C11_remove_total`, `C11_registration_clash_witness`):
+    - a root path the container already holds: `os.Exit(1)` in the real code (`Panic.exit`);
+    - a pattern of the new service on which a plain handler registered through `Handle` /
+      `HandleWithFilter` sits on the current ServeMux (and `Handle` on a pattern in use): the
+      "multiple registrations" panic of `net/http.ServeMux`, documented behaviour of `Handle`;
+    - `Remove` never fails.
+* `C11_serve` is still FALSE for the code as it is: it fails when a `Handle` precedes a `Remove`
+  (finding F10b, `C11_F10b_witness`): `Remove` builds a new ServeMux and re-registers the WebServices
+  only.  `C11_serve_partial` is the statement under the hypothesis the proof forces,
+  `Spec.F10b ops = false`.
 `C11_dispatch` (through `Dispatch`) holds without any hypothesis on the history.
 -/
-import Restful.Lemmas.RegistryFresh
+import Restful.Lemmas.RegistryTotal
 import Restful.Lemmas.StateShape
 namespace Restful
 namespace Props
@@ -95,71 +107,99 @@ theorem C11_partial (k : RouterKind) (ops : List Op) (st : State) (hno : Spec.F1
   obtain ⟨st', hf, ha⟩ := C11_serve_partial E k ops st hno h
   simp [Spec.c11Holds, hf, answerOf, ha]
 
-/-! ### `Add` is total -/
+/-! ### `Add` and `Remove` are total -/
 
-/-- F11 excluded: services with pairwise different root paths whose ServeMux patterns do not collide
-    can be added to a new container, in any number, without panic or exit. -/
-theorem C11_add_total_partial (k : RouterKind) (svcs : List Svc)
-    (hd : Spec.distinctB (roots svcs) = true) (hc : Spec.F11 (roots svcs) = false) :
+/-- Services with pairwise different root paths can be added to a new container, in any number and
+    order, without panic or exit — whatever fixed prefixes the root paths share. -/
+theorem C11_add_total (k : RouterKind) (svcs : List Svc) (hd : Spec.distinctB (roots svcs) = true) :
     ∃ st, run k (svcs.map .add) = .ok st ∧ st.services = svcs := by
-  have hp : (Spec.patsFrom (roots svcs) false).Nodup := by
-    apply (distinctB_iff _).mp
-    simpa [Spec.F11] using hc
-  refine ⟨_, runFrom_adds svcs (init k) (by simp [init, roots, Spec.patsFrom]) (by simp [init, roots, Spec.flagFrom])
-    (by simpa [init] using (distinctB_iff _).mp hd) (by simpa [init] using hp), ?_⟩
+  refine ⟨_, runFrom_adds svcs (init k) (by simp [init, roots, Spec.regFrom]) (by simp [init, roots, Spec.flagFrom])
+    (by simpa [init] using (distinctB_iff _).mp hd), ?_⟩
   simp [init]
 
+/-- ... and that is all: a sequence of `Add`s on a new container fails exactly when two of the root
+    paths are equal, and then with `os.Exit(1)`, never with a panic of the ServeMux. -/
+theorem C11_add_total_iff (k : RouterKind) (svcs : List Svc) :
+    (∃ st, run k (svcs.map .add) = .ok st) ↔ Spec.distinctB (roots svcs) = true := by
+  constructor
+  · rintro ⟨st, h⟩
+    have := (run_inv h).rootsNodup
+    rw [services_of_adds h] at this
+    exact (distinctB_iff _).mpr (by simpa [init] using this)
+  · intro hd
+    obtain ⟨st, h, _⟩ := C11_add_total k svcs hd
+    exact ⟨st, h⟩
+
+theorem C11_add_only_exit (k : RouterKind) (svcs : List Svc) (e : Panic) (h : run k (svcs.map .add) = .error e) :
+    e = .exit ∧ Spec.distinctB (roots svcs) = false := by
+  refine ⟨runFrom_adds_error (init_inv k) rfl h, ?_⟩
+  cases hd : Spec.distinctB (roots svcs) with
+  | false => rfl
+  | true =>
+    obtain ⟨st, hr, _⟩ := C11_add_total k svcs hd
+    rw [hr] at h
+    cases h
+
 /-- the add-total clause as the predicate the check evaluates on a real panic -/
-theorem C11_add_total_spec_partial (k : RouterKind) (svcs : List Svc) (hc : Spec.F11 (roots svcs) = false) :
+theorem C11_add_total_spec (k : RouterKind) (svcs : List Svc) :
     Spec.c11AddTotalHolds (roots svcs) []
       (match run k (svcs.map .add) with | .ok _ => false | .error _ => true) = true := by
   cases hd : Spec.distinctB (roots svcs) with
   | false => simp [Spec.c11AddTotalHolds, hd]
   | true =>
-    obtain ⟨st, hr, _⟩ := C11_add_total_partial k svcs hd hc
+    obtain ⟨st, hr, _⟩ := C11_add_total k svcs hd
     simp [Spec.c11AddTotalHolds, hr]
 
 /-- also in the middle of a history: adding a service with a new root path to a container that did
-    not panic so far succeeds, unless its patterns collide with those of the services present (F11)
-    or with a plain handler's pattern (documented behaviour of `Handle`). -/
-theorem C11_add_after_history_partial (k : RouterKind) (ops : List Op) (st : State) (s : Svc)
+    not panic so far succeeds, unless a plain handler registered on the current ServeMux sits on one
+    of its patterns (documented behaviour of `Handle`). -/
+theorem C11_add_after_history (k : RouterKind) (ops : List Op) (st : State) (s : Svc)
     (h : run k ops = .ok st) (hnew : s.root ∉ roots st.services)
-    (hc : Spec.F11 (roots st.services ++ [s.root]) = false)
     (hp : ∀ p ∈ Spec.regPatterns s.root, p ∉ st.live.map (·.1)) :
-    ∃ st', step st (.add s) = .ok st' := by
-  have inv := run_inv h
-  refine ⟨_, step_add_of hnew ?_⟩
-  have hk : (keys ((Spec.patsFrom (roots st.services) false).map dispE ++ st.live.map plainE)).Nodup :=
-    (keys_nodup_iff _).mp (inv.keys.perm inv.perm)
-  rw [keys_append, keys_dispE, keys_plainE] at hk
-  have hpat : (Spec.patsFrom (roots st.services ++ [s.root]) false).Nodup := by
-    apply (distinctB_iff _).mp
-    simpa [Spec.F11] using hc
-  rw [patsFrom_append, ← inv.flag] at hpat
-  have hmem : ∀ x, x ∈ keys st.mux ↔ x ∈ Spec.patsFrom (roots st.services) false ∨ x ∈ st.live.map (·.1) := by
-    intro x
-    have := (inv.perm.map (·.1)).mem_iff (a := x)
-    simp only [keys]
-    rw [this]
-    have h2 : List.map (·.1) ((Spec.patsFrom (roots st.services) false).map dispE ++ st.live.map plainE)
-        = Spec.patsFrom (roots st.services) false ++ st.live.map (·.1) := by
-      have := keys_append ((Spec.patsFrom (roots st.services) false).map dispE) (st.live.map plainE)
-      rw [keys_dispE, keys_plainE] at this
-      exact this
-    rw [h2, List.mem_append]
-  cases ho : st.onRoot with
-  | true => simpa [ho] using (keys_nodup_iff _).mp inv.keys
-  | false =>
-    simp only [ho, Bool.false_eq_true, if_false] at hpat ⊢
-    rw [List.nodup_append]
-    refine ⟨(keys_nodup_iff _).mp inv.keys, regPatterns_nodup _, ?_⟩
-    intro a ha b hb hab
-    subst hab
-    rcases (hmem a).mp ha with h1 | h1
-    · exact (List.nodup_append.mp hpat).2.2 a h1 a hb rfl
-    · exact hp a hb h1
+    ∃ st', step st (.add s) = .ok st' ∧ st'.services = st.services ++ [s] :=
+  ⟨_, step_add_ok (run_inv h) hnew hp, rfl⟩
 
-/-! ### the two open findings, on the model -/
+/-- what can still make `Add` fail, exactly: the root path is taken (`os.Exit(1)` in the real code),
+    or the ServeMux refuses ("multiple registrations") a pattern of the service on which a live plain
+    handler sits. -/
+theorem C11_add_panics_only (k : RouterKind) (ops : List Op) (st : State) (s : Svc) (e : Panic)
+    (h : run k ops = .ok st) (he : step st (.add s) = .error e) :
+    (e = .exit ∧ s.root ∈ roots st.services) ∨
+    (st.onRoot = false ∧ ∃ p, e = .mux (.multiple p) ∧ p ∈ Spec.regPatterns s.root ∧ p ∈ st.live.map (·.1)) :=
+  step_add_error (run_inv h) he
+
+/-- the same as the predicate the check evaluates on a real panic of an `Add` in the middle of a
+    history (`plain`: any list holding the patterns of the live plain handlers — the check passes
+    every pattern the user registered so far). -/
+theorem C11_add_spec (k : RouterKind) (ops : List Op) (st : State) (s : Svc) (plain : List Str)
+    (h : run k ops = .ok st) (hpl : ∀ p ∈ st.live.map (·.1), p ∈ plain) :
+    Spec.c11AddTotalHolds (roots st.services ++ [s.root]) plain
+      (match step st (.add s) with | .ok _ => false | .error _ => true) = true := by
+  have inv := run_inv h
+  cases hs : step st (.add s) with
+  | ok st' => simp [Spec.c11AddTotalHolds]
+  | error e =>
+    simp only [Spec.c11AddTotalHolds, Bool.not_true, Bool.false_or, Bool.or_eq_true, Bool.not_eq_true',
+      List.any_eq_true, List.contains_eq_mem, decide_eq_true_eq]
+    rcases step_add_error inv hs with ⟨_, hm⟩ | ⟨ho, p, _, hp, hl⟩
+    · left
+      cases hd : Spec.distinctB (roots st.services ++ [s.root]) with
+      | false => rfl
+      | true =>
+        have hn := (distinctB_iff _).mp hd
+        exact absurd rfl ((List.nodup_append.mp hn).2.2 _ hm _ (List.mem_singleton.mpr rfl))
+    · right
+      have hf : Spec.flagFrom (roots st.services) false = false := by rw [← inv.flag]; exact ho
+      exact ⟨p, mem_patsFrom_snoc hf hp, hpl p hl⟩
+
+/-- `Remove` never panics, in any state: the new ServeMux holds no plain handler, and the patterns
+    re-registered for the remaining services are pairwise different. -/
+theorem C11_remove_total (st : State) (root : Str) :
+    ∃ st', step st (.remove root) = .ok st' ∧
+      st'.services = st.services.filter (fun each => each.root != root) :=
+  ⟨_, step_remove_ok st root, rfl⟩
+
+/-! ### the open finding, the repaired finding and the remaining clashes, on the model -/
 
 section Witnesses
 
@@ -191,23 +231,64 @@ theorem C11_F10b_witness :
     Spec.F10b ops = true ∧ observe .curly ops (get "/health") = some obs ∧ Spec.c11Holds obs = false := by
   decide
 
-/-- F11: `Add(/users)`, `Add(/users/{id}/b)` — and `Add(/a)`, `Add(/a/)` — panic with "multiple
-    registrations" although the root paths differ: the add-total clause is false on the model. -/
-theorem C11_F11_witness :
-    let a : List Svc := [wSvc 1 "/users", wSvc 2 "/users/{id}/b"]
-    let b : List Svc := [wSvc 1 "/a", wSvc 2 "/a/"]
-    Spec.distinctB (roots a) = true ∧ Spec.F11 (roots a) = true ∧
-    run .curly (a.map .add) = .error (.mux (.multiple "/users/".toList)) ∧
-    Spec.c11AddTotalHolds (roots a) [] true = false ∧
-    Spec.distinctB (roots b) = true ∧ Spec.F11 (roots b) = true ∧
-    run .curly (b.map .add) = .error (.mux (.multiple "/a/".toList)) ∧
-    Spec.c11AddTotalHolds (roots b) [] true = false := by
+/-- a service whose one route sits on the root path itself -/
+def rSvc (id : Nat) (root : String) : Svc :=
+  { svc := { id := id, root := root.toList,
+             routes := [{ id := id, method := "GET".toList, relPath := [], consumes := [], produces := [],
+                          conds := [], noct := [] }] },
+    dynamic := true }
+
+/-- F11 REPAIRED (093fa53) — the former witness of the finding, on which the property now holds:
+    `Add(/users)`, `Add(/users/{id}/b)`, in both orders, lies in the former class (`Spec.F11`), does
+    not panic, registers the two shared patterns once, and `GET /users/7/b` reaches the second
+    service through `ServeHTTP` and `Dispatch`, in the history-built and in the fresh container;
+    `GET /users/x` still reaches the first.  Likewise `Add(/a)`, `Add(/a/)` in both orders (the
+    routers rank the two roots equally: the first registered answers `/a/x`, in the fresh container
+    as well). -/
+theorem C11_F11_fixed :
+    let u1 := wSvc 1 "/users"
+    let u2 := rSvc 2 "/users/{id}/b"
+    let a1 := wSvc 1 "/a"
+    let a2 := wSvc 2 "/a/"
+    let hit2 : Answer := .routed (.selected 2 2 [("id".toList, "7".toList)])
+    let hit1 : Answer := .routed (.selected 1 1 [])
+    let sel2 : Answer := .routed (.selected 2 2 [])
+    Spec.distinctB (roots [u1, u2]) = true ∧ Spec.F11 (roots [u1, u2]) = true ∧ Spec.F11 (roots [u2, u1]) = true ∧
+    (run .curly [.add u1, .add u2]).toOption.map (·.mux) = some [dispE "/users".toList, dispE "/users/".toList] ∧
+    (run .curly [.add u2, .add u1]).toOption.map (·.mux) = some [dispE "/users/".toList, dispE "/users".toList] ∧
+    Spec.c11AddTotalHolds (roots [u1, u2]) [] false = true ∧
+    observe .curly [.add u1, .add u2] (get "/users/7/b") = some ⟨hit2, hit2, hit2, hit2⟩ ∧
+    observe .curly [.add u2, .add u1] (get "/users/7/b") = some ⟨hit2, hit2, hit2, hit2⟩ ∧
+    observe .jsr [.add u1, .add u2] (get "/users/7/b") = some ⟨hit2, hit2, hit2, hit2⟩ ∧
+    observe .curly [.add u1, .add u2] (get "/users/x") = some ⟨hit1, hit1, hit1, hit1⟩ ∧
+    Spec.distinctB (roots [a1, a2]) = true ∧ Spec.F11 (roots [a1, a2]) = true ∧ Spec.F11 (roots [a2, a1]) = true ∧
+    (run .curly [.add a1, .add a2]).toOption.map (·.mux) = some [dispE "/a".toList, dispE "/a/".toList] ∧
+    (run .curly [.add a2, .add a1]).toOption.map (·.mux) = some [dispE "/a/".toList, dispE "/a".toList] ∧
+    observe .curly [.add a1, .add a2] (get "/a/x") = some ⟨hit1, hit1, hit1, hit1⟩ ∧
+    observe .curly [.add a2, .add a1] (get "/a/x") = some ⟨sel2, sel2, sel2, sel2⟩ := by
   decide
 
-/-- the same collision makes `Remove` panic: `/` shields the two services until it is removed -/
-theorem C11_F11_remove_witness :
-    run .curly [.add (wSvc 0 "/"), .add (wSvc 1 "/users"), .add (wSvc 2 "/users/{id}/b"), .remove "/".toList]
-      = .error (.mux (.multiple "/users/".toList)) := by
+/-- the same collision used to make `Remove` panic (`/` shields the two services until it is
+    removed); now the rebuild registers the shared patterns once and the probes agree -/
+theorem C11_F11_remove_fixed :
+    let ops : List Op := [.add (wSvc 0 "/"), .add (wSvc 1 "/users"), .add (rSvc 2 "/users/{id}/b"), .remove "/".toList]
+    let hit2 : Answer := .routed (.selected 2 2 [("id".toList, "7".toList)])
+    (run .curly ops).toOption.map (·.mux) = some [dispE "/users".toList, dispE "/users/".toList] ∧
+    observe .curly ops (get "/users/7/b") = some ⟨hit2, hit2, hit2, hit2⟩ := by
+  decide
+
+/-- what still panics, and must (the ServeMux's own rule, documented behaviour of `Handle`): a plain
+    handler on a pattern that a later WebService needs, and a `Handle` on a pattern a WebService
+    registered; also behind a shared prefix (`/a` is there, `Handle(/a/b)`, then `Add(/a/b)`).  A root
+    path twice is the `os.Exit(1)` of `Add`.  These are the outcomes the hypotheses of
+    `C11_add_after_history` exclude and `C11_add_panics_only` lists. -/
+theorem C11_registration_clash_witness :
+    run .curly [.handle "/a/".toList 7, .add (wSvc 1 "/a")] = .error (.mux (.multiple "/a/".toList)) ∧
+    run .curly [.add (wSvc 1 "/a"), .handle "/a/".toList 7] = .error (.mux (.multiple "/a/".toList)) ∧
+    run .curly [.add (wSvc 1 "/a"), .handle "/a/b".toList 7, .add (wSvc 2 "/a/b")] = .error (.mux (.multiple "/a/b".toList)) ∧
+    run .curly [.add (wSvc 1 "/a"), .add (wSvc 2 "/a")] = .error .exit ∧
+    Spec.c11AddTotalHolds (roots [wSvc 1 "/a"]) ["/a/".toList] true = true ∧
+    Spec.c11AddTotalHolds (roots [wSvc 1 "/a", wSvc 2 "/a"]) [] true = true := by
   decide
 
 /-- non-vacuity of `C11_serve_partial` / `C11_partial`: a history with every kind of operation, outside
@@ -232,11 +313,46 @@ example :
     observe .curly ops (get "/c/5/../5/x") = some ⟨nf, nf, .redirect "/c/5/x".toList, .redirect "/c/5/x".toList⟩ := by
   decide
 
-/-- non-vacuity of `C11_add_total_partial`: roots sharing prefixes, a variable, a trailing slash and `/` -/
+/-- non-vacuity of `C11_serve_partial` inside the class of the repaired finding F11 (histories that
+    used to panic): three services wanting `/a/`, one of them removed, a plain handler below the
+    shared prefix, a fourth service that finds both of its patterns mapped — outside the class of
+    F10b, no panic, one ServeMux pattern for all, and every probe answered alike -/
 example :
-    let svcs : List Svc := [wSvc 1 "/a", wSvc 2 "/ab", wSvc 3 "/a/b", wSvc 4 "/b/{x}", wSvc 5 "/c/d/", wSvc 6 "/", wSvc 7 "/a/{id}"]
-    Spec.distinctB (roots svcs) = true ∧ Spec.F11 (roots svcs) = false ∧
-    (run .jsr (svcs.map .add)).toOption.map (·.services) = some svcs := by
+    let ops : List Op := [.add (wSvc 1 "/a"), .add (wSvc 3 "/a/{id}"), .add (wSvc 2 "/a/"), .remove "/a".toList,
+      .handle "/a/plain".toList 9, .add (wSvc 4 "/a/{id}/b")]
+    let nf : Answer := .routed (.error 404 none)
+    let sel3 : Answer := .routed (.selected 3 3 [("id".toList, "5".toList)])
+    let sel4 : Answer := .routed (.selected 4 4 [("id".toList, "5".toList)])
+    Spec.F10b ops = false ∧
+    Spec.F11 ["/a/{id}".toList, "/a/".toList, "/a/{id}/b".toList] = true ∧
+    (run .curly ops).toOption.map (fun st => keys st.mux) = some ["/a/".toList, "/a/plain".toList] ∧
+    observe .curly ops (get "/a/5/x") = some ⟨sel3, sel3, sel3, sel3⟩ ∧
+    observe .curly ops (get "/a/5/b/x") = some ⟨sel4, sel4, sel4, sel4⟩ ∧
+    observe .curly ops (get "/a/plain") = some ⟨nf, nf, .plain 9, .plain 9⟩ ∧
+    observe .curly ops (get "/a") = some ⟨nf, nf, .redirect "/a/".toList, .redirect "/a/".toList⟩ := by
+  decide
+
+/-- non-vacuity of `C11_add_total`: roots sharing prefixes, differing by a variable or a trailing
+    slash (the former class of F11: several services want `/a/`), and `/` -/
+example :
+    let svcs : List Svc := [wSvc 1 "/a", wSvc 2 "/ab", wSvc 3 "/a/b", wSvc 4 "/b/{x}", wSvc 5 "/c/d/", wSvc 8 "/a/",
+      wSvc 9 "/a/{id}/b", wSvc 6 "/", wSvc 7 "/a/{id}"]
+    Spec.distinctB (roots svcs) = true ∧ Spec.F11 (roots svcs) = true ∧
+    (run .jsr (svcs.map .add)).toOption.map (·.services) = some svcs ∧
+    (run .jsr (svcs.map .add)).toOption.map (fun st => keys st.mux) =
+      some (["/a", "/a/", "/ab", "/ab/", "/a/b", "/a/b/", "/b/", "/c/d/", "/"].map String.toList) := by
+  decide
+
+/-- non-vacuity of `C11_add_after_history` / `C11_add_panics_only`: after a history with a `Remove`
+    and a live plain handler, a service sharing the prefix of a present one is added; a service on
+    the plain handler's pattern is refused -/
+example :
+    let ops : List Op := [.add (wSvc 1 "/a"), .add (wSvc 2 "/b"), .remove "/b".toList, .handle "/c/".toList 9]
+    (run .curly ops).toOption.map (fun st => (roots st.services, st.live, st.onRoot)) =
+      some (["/a".toList], [("/c/".toList, 9)], false) ∧
+    (run .curly (ops ++ [.add (wSvc 3 "/a/{id}")])).toOption.map (fun st => keys st.mux) =
+      some (["/a", "/a/", "/c/"].map String.toList) ∧
+    run .curly (ops ++ [.add (wSvc 4 "/c")]) = .error (.mux (.multiple "/c/".toList)) := by
   decide
 
 end Witnesses
